@@ -1,5 +1,5 @@
 /- L0 facts about the accessors, Display and Default of MeanAbsoluteDeviation (split from Lemmas/MeanAbsoluteDeviation.lean so that a change to one method only invalidates the facts about that method) -/
-import TaRs.Lemmas.MeanAbsoluteDeviation
+import TaRs.Lemmas.Core.MeanAbsoluteDeviation
 set_option linter.unusedSectionVars false
 namespace TaRs.Gen.MeanAbsoluteDeviation
 open TaRs TaRs.Rs
